@@ -44,6 +44,7 @@ import math
 
 import numpy as np
 
+from vmc import bfs
 from vmc import common, families, numerics
 from vmc.parallel import run_shards, shard
 from vmc.report import Broken, Check
@@ -151,7 +152,7 @@ def _feed(h, v):
 def obj_digest(o):
     """digest of EVERY attribute of an object (arrays by dtype, shape and bytes)"""
     h = hashlib.sha1()
-    _feed(h, vars(o))
+    _feed(h, bfs.state_of(o))
     return h.hexdigest()
 
 
@@ -166,10 +167,10 @@ def _watch_list():
         for name in ("reference_signals.zadoffchu", "reference_signals.root_sequence", "reference_signals.srs",
                      "reference_signals.dmrs", "reference_signals.channel_estimation", "channel_estimation.estimators"):
             mod = importlib.import_module("pyphysim." + name)
-            spaces = [(name, vars(mod))]
-            for cn, c in sorted(vars(mod).items()):
+            spaces = [(name, bfs.state_of(mod))]
+            for cn, c in sorted(bfs.state_of(mod).items()):
                 if isinstance(c, type) and getattr(c, "__module__", "") == mod.__name__:
-                    spaces.append((name + "." + cn, vars(c)))
+                    spaces.append((name + "." + cn, bfs.state_of(c)))
             for sn, space in spaces:
                 for k in sorted(space):
                     v = space[k]
